@@ -5,8 +5,9 @@ ROOT = os.path.dirname(os.path.dirname(os.path.abspath(__file__)))
 sys.path.insert(0, ROOT)
 ALL = ["C%02d" % i for i in range(1, 21)]
 checks, na = [], []
+READY = open(os.path.join(ROOT, "props", "READY")).read().split()
 for pid in ALL:
-    if not os.path.exists(os.path.join(ROOT, "props", pid + ".py")):
+    if pid not in READY or not os.path.exists(os.path.join(ROOT, "props", pid + ".py")):
         na.append({"property_id": pid, "reason": "not built yet in this development (planned: see DESIGN.md section 8); no claim is made"})
         continue
     mod = importlib.import_module("props." + pid)
